@@ -74,8 +74,8 @@ def run(tier):
     chk = vp.Check("C01", tier, level="translation_validation")
     wd = vp.workdir("c01")
     thorough = tier == "thorough"
-    events = observe(chk, wd, thorough, ("unwrap", "nulltest", "conv", "expr", "rangecmp"))
-    mine = [e for e in events if e["cls"] in ("unwrap", "nulltest", "conv", "expr", "rangecmp")]
+    events = observe(chk, wd, thorough, ("unwrap", "nulltest", "conv", "expr", "rangecmp", "cbparam"))
+    mine = [e for e in events if e["cls"] in ("unwrap", "nulltest", "conv", "expr", "rangecmp", "cbparam")]
     for ev in judge(chk, wd, mine, thorough):
         chk.violation("program outside the C01 Contract: `%s` (%s, operand %s %s) -> %s %s %s" %
                       (ev["text"], ev["cls"], ev["x"]["k"], ev["x"]["t"], ev["verdict"], ev["rk"], ev["type"][:80]),
